@@ -356,6 +356,45 @@ func (g *Gen) generate(size int, withTest bool) ([]SrcFile, bool) {
 		g.add(-1, fmt.Sprintf("func (cyn) cyput(x %s) {}", arg))
 		g.add(-1, "var _ cyn")
 	}
+	// embedding through type aliases of types with pointer-receiver methods (by value and by pointer, one and two
+	// levels, alias of a generic instance); the outer type has no pointer method of its own and is used only through an
+	// interface that *outer satisfies (rule 6.3 / 8.2 on the method set of *outer)
+	if r.Chance(50) {
+		inner, alias := "cypi", "cypa"
+		if r.Chance(35) {
+			g.add(-1, "type cypg[T any] struct {\n\tv T\n}")
+			g.add(-1, "func (p *cypg[T]) cypm() {}")
+			g.add(-1, "type cypa = cypg[int]")
+			inner = "cypg"
+		} else {
+			g.add(-1, "type cypi struct {\n\tn int\n}")
+			g.add(-1, "func (p *cypi) cypm() {}")
+			g.add(-1, "type cypa = cypi")
+		}
+		_ = inner
+		emb := alias
+		if r.Chance(20) {
+			emb = "*" + alias
+		}
+		outerEmb := emb
+		if r.Chance(40) {
+			g.add(-1, "type cypmid struct {\n\t"+emb+"\n\tk int\n}")
+			outerEmb = "cypmid"
+		}
+		g.add(-1, "type cypo struct {\n\t"+outerEmb+"\n}")
+		if r.Chance(25) {
+			g.add(-1, "func (cypo) cypv() {}") // a value method does not change the picture
+		}
+		g.add(-1, "type cypif interface {\n\tcypm()\n}")
+		switch r.Intn(3) {
+		case 0:
+			g.add(-1, "var _ cypif = &cypo{}")
+		case 1:
+			g.add(-1, "func CypUse() cypif { return &cypo{} }")
+		default:
+			g.add(-1, "func CypUse() {\n\tvar i cypif = new(cypo)\n\ti.cypm()\n}")
+		}
+	}
 	// aliases
 	if r.Chance(50) {
 		g.add(-1, "type a0 = "+g.pick(g.structs))
@@ -1098,6 +1137,44 @@ type names struct{}
 func (names) put(s string) {}
 
 var _ names
+`}},
+		// rule 6.3 through an alias: *outer implements iface only through the pointer method of inner, which is embedded
+		// by value under an alias name, two levels down
+		"aliasembed": {{Name: "a.go", Src: `package p
+
+type inner struct{ n int }
+
+func (p *inner) m() {}
+
+type innerAlias = inner
+
+type mid struct {
+	innerAlias
+}
+
+type outer struct {
+	mid
+}
+
+type iface interface {
+	m()
+}
+
+var _ iface = &outer{}
+`}},
+		"aliasembedgeneric": {{Name: "a.go", Src: `package p
+
+type box[T any] struct{ v T }
+
+func (b *box[T]) m() {}
+
+type intBox = box[int]
+
+type outer struct {
+	intBox
+}
+
+func Use() interface{ m() } { return &outer{} }
 `}},
 		// rule 10.1 / 5.1 / 8.2 in one small package
 		"mixed": {{Name: "a.go", Src: `package p
